@@ -604,7 +604,7 @@ def matrix(ctx, jinja2):
     from markupsafe import Markup
     from urllib.parse import quote
     from .filt_matrix import Matrix
-    mx = Matrix(ctx, jinja2)
+    mx = Matrix(ctx, jinja2, autoescape_group=True)
     texts = ["", "hello world", "  padded  ", "MiXeD case-word (x)", "a\nb c\r\nd", "é ü ǆ", "<b>x</b> &amp; y", "foo bar baz qux quux corge"]
     if ctx.tier != "thorough":
         texts = texts[:2] + texts[3:7:2] + texts[6:]
@@ -620,7 +620,7 @@ def matrix(ctx, jinja2):
                 v = K(t)
                 plain = kname == "str"
                 for w in (0, 9, 20):
-                    mx.apply("C23", "center", v, (w,), ("width",), expect=(lambda t=t, w=w: t.center(w)) if plain else None)
+                    mx.apply("C23", "center", v, (w,), ("width",), expect=(lambda t=t, w=w: t.center(w)) if plain else None, auto_same=plain)
                 mx.apply("C23", "center", v, (), (), expect=(lambda t=t: t.center(80)) if plain else None)
                 for chars in ((), (None,), (" ",), ("xh d",)):
                     mx.apply("C23", "trim", v, chars, ("chars",), expect=(lambda t=t, c=chars: t.strip(*c)) if plain else None)
@@ -629,13 +629,15 @@ def matrix(ctx, jinja2):
                     mx.apply("C23", f, v, (), (), expect=(lambda t=t, ref=ref: ref(t)) if plain else None)
                 for a in (("a", "XY"), (" ", "_", 1), ("l", "L", None), ("o", "0", 0), ("", "-", 2)):
                     mx.apply("C23", "replace", v, a, ("old", "new", "count"),
-                             expect=(lambda t=t, a=a: t.replace(a[0], a[1], -1 if len(a) < 3 or a[2] is None else a[2])) if plain else None)
+                             expect=(lambda t=t, a=a: t.replace(a[0], a[1], -1 if len(a) < 3 or a[2] is None else a[2])) if plain else None,
+                             # plain text and plain arguments: the autoescape-on branch gives the same text
+                             auto_same=plain and not any(c in t + a[0] + a[1] for c in "<>&'\""))
                 for a in ((9, False, "...", 0), (5, True, "…", 2), (255, False, "...", None), (12,), (7, True)):
-                    mx.apply("C23", "truncate", v, a, ("length", "killwords", "end", "leeway"))
+                    mx.apply("C23", "truncate", v, a, ("length", "killwords", "end", "leeway"), auto_same=plain)
                 for a in ((10,), (5, True, "\n", False), (7, False, None, True), (79, True, " | ")):
-                    mx.apply("C23", "wordwrap", v, a, ("width", "break_long_words", "wrapstring", "break_on_hyphens"))
+                    mx.apply("C23", "wordwrap", v, a, ("width", "break_long_words", "wrapstring", "break_on_hyphens"), auto_same=plain)
                 for a in ((), (2,), (">>", True), (4, False, True), (0, True, True)):
-                    mx.apply("C23", "indent", v, a, ("width", "first", "blank"))
+                    mx.apply("C23", "indent", v, a, ("width", "first", "blank"), auto_same=plain)
                 mx.apply("C23", "urlencode", v, (), (), expect=(lambda t=t: quote(t, safe="/")) if plain else None)
         for v in odd:
             for f in ("center", "trim", "title", "capitalize", "upper", "lower", "wordcount", "striptags", "urlencode", "truncate",
@@ -660,8 +662,16 @@ def matrix(ctx, jinja2):
         mx.apply("C23", "indent", "a\nb", ("", True, True), ("width", "first", "blank"), expect=lambda: "a\nb")
         mx.apply("C23", "indent", "a\nb", (0, True), ("width", "first"), expect=lambda: "a\nb")
         mx.apply("C23", "trim", " x ", ("",), ("chars",), expect=lambda: " x ")
-        mx.apply("C23", "replace", "aaa", ("a", "", 2), ("old", "new", "count"), expect=lambda: "a")
-        mx.apply("C23", "replace", "aaa", ("a", "b", 0), ("old", "new", "count"), expect=lambda: "aaa")
+        mx.apply("C23", "replace", "aaa", ("a", "", 2), ("old", "new", "count"), expect=lambda: "a", auto_same=True)
+        mx.apply("C23", "replace", "aaa", ("a", "b", 0), ("old", "new", "count"), expect=lambda: "aaa", auto_same=True)
+        from markupsafe import escape as _esc
+        for val, a in ((Markup("a<b>a a"), ("a", "<x>", 1)), (Markup("a a a"), ("a", Markup("<i>"), 2)), ("a&a a", ("a", Markup("<i>"), 1)),
+                       (Markup("aaa"), ("a", "b", 0)), ("x<x", ("x", "y", None))):
+            # autoescape on: Markup.replace on the (escaped) text with escaped plain arguments, count honoured
+            def auto_ref(val=val, a=a):
+                sv = val if isinstance(val, Markup) else (_esc(val) if any(hasattr(x, "__html__") for x in a[:2]) else val)
+                return sv.replace(a[0], a[1], -1 if a[2] is None else a[2])
+            mx.apply("C23", "replace", val, a, ("old", "new", "count"), auto_expect=auto_ref)
         mx.apply("C23", "center", "x", (0,), ("width",), expect=lambda: "x")
         mx.apply("C23", "int", "x", (False,), ("default",), expect=lambda: False)
         mx.apply("C23", "float", "x", ("",), ("default",), expect=lambda: "")
